@@ -1,4 +1,5 @@
 import EmmyVerif.Lemmas.Order
+import EmmyVerif.Lemmas.OrderKahn
 /-!
 # C11 — Analysis results do not depend on file order or hash seeds
 
@@ -73,6 +74,24 @@ scan / the adjacency lists produced them. -/
 theorem C11_tie_sort_perm_invariant (metas : List FileId) {l₁ l₂ : List FileId} (h : l₁.Perm l₂) :
     isort (tieLe metas) l₁ = isort (tieLe metas) l₂ :=
   tieSort_perm_invariant metas h
+
+/-- **best_order: nothing lost, nothing twice.** For every list of distinct file ids, meta set and dependency
+relation (dependency sets without repetition — they are hash sets), `get_best_analysis_order` returns a
+permutation of its input: every file is analysed exactly once, cycles included. -/
+theorem C11_best_order_perm (ids metas : List Nat) (deps : Deps) (hnd : ids.Nodup)
+    (hdn : ∀ y, (depsOf deps y).Nodup) : (bestOrder ids metas deps).Perm ids :=
+  bestOrder_perm ids metas deps hnd hdn
+
+/-- **best_order_topological.** The result is `R ++ tail`: every file of `R` is placed after *all* its
+dependencies that are in the list, and `tail` holds exactly the files with a dependency that could never be
+emitted (files on or behind a dependency cycle). Proved through the loop invariant "the in-degree table
+always equals the number of in-list dependencies not yet emitted" (`kahn_inv`). -/
+theorem C11_best_order_topological (ids metas : List Nat) (deps : Deps) (hnd : ids.Nodup)
+    (hdn : ∀ y, (depsOf deps y).Nodup) (h2 : 2 ≤ ids.length) :
+    ∃ R tail, bestOrder ids metas deps = R ++ tail ∧
+      (∀ pre v post, R = pre ++ v :: post → ∀ d ∈ depsOf deps v, d ∈ ids → d ∈ pre) ∧
+      (∀ x, x ∈ tail ↔ (x ∈ ids ∧ ∃ d ∈ depsOf deps x, d ∈ ids ∧ d ∉ R)) :=
+  bestOrder_topological ids metas deps hnd hdn (by omega)
 
 /-! Non-vacuity (tests, labelled as such): a concrete environment with a cycle, a meta file and three
 workspaces; two iteration orders; reversed map iteration. -/
